@@ -200,6 +200,15 @@ def use_translated_grammar(mdl, run, report=True):
     mdl.kill()
     r = mdl.ask({"op": "grammar", "rules": rules, "use": True}, timeout=60) or {}
     info.update(translated=True, rules=len(rules), equal_to_transcribed=bool(r.get("equal")), differing_rules=r.get("diff", []))
+    if not r.get("equal"):
+        # the grammar in /repo is no longer the one the theorems and the tree-to-AST model were written against: the model
+        # parser goes back to the transcribed grammar (the reference), so that running both on the same texts can exhibit a
+        # text on which the changed grammar parses differently
+        mdl.init_lines = []
+        mdl.kill()
+        info["model_runs"] = "transcribed grammar (Pdlv.Syntax.grammar)"
+    else:
+        info["model_runs"] = "grammar translated from parser.rs"
     run.cov["grammar_translation"] = info
     return bool(r.get("equal")), info
 
